@@ -10,7 +10,7 @@ def check(ctx, rep):
         "their job's successors, and the start loop visits all of them. R12.3 reverse links rebuilt by the run "
         "before the first start, by a builder that resets every member and links with the right orientation. "
         "R12.4 the successor guard contains nothing but the once-guard and all-requirements-done. R12.5 no "
-        "suspension while a slot is held other than the body itself. R12.8 (= R01.3) is_done() is true on every finished task, for atomic jobs and nested schedulers alike: a requirement that has finished is seen as finished. R12.9 (= R07.3) every run builds its own window: a slot kept by a previous run (a critical failure keeps it on purpose) is not carried over. R12.10 (= R07.5) `jobs_window` is what the caller gave: stored unchanged by the constructor, written nowhere else (an unwindowed nested scheduler stays unwindowed inside a windowed one).")
+        "suspension while a slot is held other than the body itself. R12.8 (= R01.3) is_done() is true on every finished task, for atomic jobs and nested schedulers alike: a requirement that has finished is seen as finished. R12.9 (= R07.3) every run builds its own window: a slot kept by a previous run (a critical failure keeps it on purpose) is not carried over. R12.10 (= R07.5) `jobs_window` is what the caller gave: stored unchanged by the constructor, written nowhere else (an unwindowed nested scheduler stays unwindowed inside a windowed one). R12.11 (= R09.8) the window closes exactly when the last member that does not run forever has completed - returned or raised, counted at its completion and only then: no job starts after the end of the run, none is held back before it.")
     rep.declined = ["FIFO hand-over of freed slots (asyncio.Queue, T4)", "timing"]
     rep.trusted = ["T2", "T4"]
     runrules.eager(ctx, rep, "R12.1", "R12.2", "R12.3", "R12.4")
@@ -21,3 +21,4 @@ def check(ctx, rep):
     predicates.is_done_table(ctx, rep, "R12.8")
     common.window_scope(ctx, rep, "R12.9")
     predicates.config_verbatim(ctx, rep, "R12.10", ('jobs_window',))
+    common.window_gate(ctx, rep, "R12.11", "endofrun")
